@@ -202,6 +202,35 @@ def rules(ctx, db):
         br = db.methods(self_adt=r"^compio_driver::sys::buffer_pool::iour::BufControl$", name="release", trait="")
         if not br:
             ctx.missing("R5", "iour BufControl::release")
+        # the provided-buffer ring is a FIFO the kernel reads at its head: a buffer that is given back must be
+        # written at the ring's *tail*, and the tail is advanced afterwards
+        writers = [f for f in db.fns.values() if f.impl and f.impl.get("self_adt") == "compio_driver::sys::buffer_pool::iour::BufControl"
+                   and calls(f, r"io_uring::types::BufRingEntry::set_bid$")]
+        ctx.floor("R5", "functions writing buffer-ring entries", len(writers), 1)
+        for f in writers:
+            # indexing is a place projection `slice[idx]`
+            idx_locals = set()
+            for bi, si, st in f.stmts():
+                for pl in ([st["a"]] if "a" in st else []) + rvalue_places(st.get("r", {})):
+                    for e in pl["p"]:
+                        if isinstance(e, list) and e[0] == "i":
+                            idx_locals.add(e[1])
+            ok = bool(idx_locals)
+            for il in idx_locals:
+                locs, cr, _ = data_deps(f, il)
+                if not any(call_matches(ct, r"BufControl::tail$") for _, ct in cr):
+                    ok = False
+            ctx.ob("R5", "ring-entry-written-at-tail:" + f.name, ok,
+                   "the ring slot a returned buffer is written to is computed from the ring's tail (the kernel consumes "
+                   "entries in ring order; writing at an id-derived slot publishes stale entries of buffers still held "
+                   "by users once buffers come back out of order)", f)
+            for g, b2 in db.callers().get(f.id, []):
+                if g.blocks[b2]["cl"]:
+                    continue
+                cm = [bb for bb, _ in calls(g, r"BufControl::commit$")]
+                ctx.ob("R5", "tail-advanced-after-write:" + g.name, bool(cm) and any(g.cfg.dominates(b2, c) or b2 in g.cfg.reach_set([b2]) for c in cm) and
+                       any(c in g.cfg.reach_from_block(b2) for c in cm),
+                       "after the entry is written the tail is advanced (commit), making the buffer visible to the kernel", g)
         for f in br:
             un = [bb for bb, _ in calls(f, r"unregister_buf_ring$")]
             mu = [bb for bb, _ in calls(f, r"^rustix::mm::.*munmap$")]
